@@ -67,4 +67,15 @@ CATALOG = [
     dict(pid="C10", name="pure QED factor ignores mu2_to", edits=[("eko/kernels/non_singlet_qed.py", "np.log(mu2_from / mu2_to)", "np.log(mu2_from)")], expect="qed_ns"),
     dict(pid="C10", name="n3lo_expanded uses a0 twice in j33", edits=[("eko/kernels/non_singlet.py", "j33 = as4_ei.j33_expanded(a1, a0, beta0)\n    return np.exp(", "j33 = as4_ei.j33_expanded(a1, a1 * 0.0, beta0)\n    return np.exp(")], expect="order=4"),
     dict(pid="C10", name="harmless: ordered truncated accumulates in reverse", harmless=True, edits=[("eko/kernels/non_singlet.py", "    for i in range(order[0]):\n        num += U[i] * a1**i\n        den += U[i] * a0**i", "    for i in reversed(range(order[0])):\n        num += U[i] * a1**i\n        den += U[i] * a0**i")]),
+    # ---- C08 -------------------------------------------------------------------------------------------
+    dict(pid="C08", name="NS U2 factor 1/2 -> 1/3", edits=[("eko/kernels/non_singlet.py", "U[2] = 0.5 * (R2 + U[1] * R1)", "U[2] = 1 / 3 * (R2 + U[1] * R1)")], expect="C08.ns"),
+    dict(pid="C08", name="NS R2 misses b2 R0", edits=[("eko/kernels/non_singlet.py", "R2 = gamma_ns[2] / beta0 - b1 * R1 - b2 * R0", "R2 = gamma_ns[2] / beta0 - b1 * R1")], expect="C08.ns"),
+    dict(pid="C08", name="nnlo j14_expanded b2 sign", edits=[("eko/kernels/evolution_integrals.py", "        - b2 * j34_expanded(a1, a0, beta0)\n    )", "        + b2 * j34_expanded(a1, a0, beta0)\n    )")], expect="expanded"),
+    dict(pid="C08", name="u_vec denominators swapped", edits=[("eko/kernels/singlet.py", "+ ((e_p @ rp @ e_m) / (r_m - r_p + kk))\n            + ((e_m @ rp @ e_p) / (r_p - r_m + kk))", "+ ((e_p @ rp @ e_m) / (r_p - r_m + kk))\n            + ((e_m @ rp @ e_p) / (r_m - r_p + kk))")], expect="u_vec"),
+    dict(pid="C08", name="r_vec exact tail drops b2 at order 3", edits=[("eko/kernels/singlet.py", "r[kk] = -b1 * r[kk - 1] - b2 * r[kk - 2]\n", "r[kk] = -b1 * r[kk - 1]\n")], expect="r_vec"),
+    dict(pid="C08", name="singlet truncated operator order at a1 a0", edits=[("eko/kernels/singlet.py", "- a1 * a0 * u1 @ e0 @ u1", "- a1 * a0 * u1 @ u1 @ e0")], expect="eko_truncated"),
+    dict(pid="C08", name="singlet truncated aliasing restored", edits=[("eko/kernels/singlet.py", "    e = e0.copy()", "    e = e0")], expect="eko_truncated"),
+    dict(pid="C08", name="perturbative inverts the wrong factor", edits=[("eko/kernels/singlet.py", "ek = np.ascontiguousarray(uh) @ np.ascontiguousarray(e0) @ np.linalg.inv(ul)", "ek = np.linalg.inv(uh) @ np.ascontiguousarray(e0) @ np.ascontiguousarray(ul)")], expect="eko_perturbative"),
+    dict(pid="C08", name="sum_u starts the power at a", edits=[("eko/kernels/singlet.py", "    p = 1.0\n    res = np.zeros((2, 2), dtype=np.complex128)", "    p = a\n    res = np.zeros((2, 2), dtype=np.complex128)")], expect="sum_u"),
+    dict(pid="C08", name="harmless: U_vec R1 hoisted", harmless=True, edits=[("eko/kernels/non_singlet.py", "        U[1] = R1\n", "        U[1] = 1.0 * R1\n")]),
 ]
